@@ -19,5 +19,5 @@ EXPLANATION = ("The real DeformationGradientTensor code is executed on abstract 
 
 
 def units(ctx):
-    return (py_strain.units() + py_cell.units_c10_copies() + py_cell.units_c10_grain() +
+    return (py_strain.units() + py_cell.units_c10_copies() + py_cell.units_c10_grain() + py_cell.units_c10_frames() +
             [BoundedUnit("known-stretch-numeric", py_cell.b_c10_numeric, "25 (thorough 250) random cells x stretches x 7 values of m")])
